@@ -392,6 +392,28 @@ Arguments RStruct {F F32} l.
 Arguments RTuple {F F32} l.
 Arguments REnum {F F32} i.
 
+(* ---- lib.rs :: to_string / from_str: the typed mapping composed with the serialiser and the parser of C13 ---- *)
+Section TypedText.
+  Variable F : Type.
+  Variable F32 : Type.
+  Variable of_int : Z -> F.
+  Variable f2z : F -> Z.
+  Variable widen : F32 -> F.
+  Variable narrow : F -> F32.
+  Variable fparse : str -> option F.
+  Variable fdisplay : F -> str.
+
+  (* humphrey_json::to_string(&v) = v.to_json().serialize() *)
+  Definition to_string (t : ty) (v : rval F F32) : str := serialize F fdisplay (to_json F F32 of_int widen t v).
+  (* humphrey_json::from_str::<T>(s) = Value::parse(s).and_then(T::from_json) *)
+  Definition from_str (t : ty) (s : str) : outcome (rval F F32) :=
+    match parse fparse s with
+    | Ok j => from_json F F32 f2z narrow t j
+    | Err e => Err e
+    | Crash w => Crash w
+    end.
+End TypedText.
+
 (* distinct names, decidable form (used by the runner and by the examples) *)
 Fixpoint str_mem (k : str) (l : list str) : bool :=
   match l with [] => false | x :: r => str_eqb x k || str_mem k r end.
